@@ -7,7 +7,7 @@ ASSUMPTIONS = [
     'allocFunc returns disjoint slabs of the requested size (any byte placement inside a backing arena) and never fails',
 ]
 OUTSIDE = ('histories longer than 3 operations (see NOTES.md: the std::vector<char*> heap encoding does not scale further in CBMC); '
-           'chunk sizes other than 16/32/64, 1 chunk per slab or more than 3, slack values other than 0 / 1 / chunkSize-1; '
+           'chunk sizes other than 16/32/64, 1 chunk per slab or more than 3, slack values other than 0 and chunkSize-1; '
            'concurrent use of PoolAllocator from 2+ threads (spin-lock mutual exclusion) -- left for a separate concurrent instance by the lead; '
            'allocFunc failure (nullptr); several pools sharing the backing functions')
 
@@ -23,11 +23,11 @@ def _inst(ts, cs, cpa, slack, tiers):
                          else 'NoLockPoolAllocator', cs, cpa, cs * cpa + slack)}
 
 
-_QUICK = {(0, 16, 2, 0), (0, 32, 3, 31), (0, 64, 2, 1), (0, 16, 3, 15), (1, 32, 2, 0), (1, 64, 3, 63)}
+_QUICK = {(0, 16, 2, 0), (0, 32, 3, 31), (0, 64, 2, 63), (0, 16, 3, 15), (1, 32, 2, 0), (1, 64, 3, 63)}
 INSTANCES = []
 for _ts in (0, 1):
     for _cs in (16, 32, 64):
         for _cpa in (2, 3):  # 1 chunk per slab: every alloc() reallocates backingAllocs_; CBMC times out (NOTES.md)
-            for _slack in (0, 1, _cs - 1):
+            for _slack in (0, _cs - 1):
                 _q = (_ts, _cs, _cpa, _slack) in _QUICK
                 INSTANCES.append(_inst(_ts, _cs, _cpa, _slack, ['quick', 'thorough'] if _q else ['thorough']))
